@@ -2,38 +2,54 @@
 // f64 operations are uninterpreted functions of their operands.  No algebraic law is assumed here;
 // the few IEEE facts a unit needs are separate axioms (prelude/ieee_axioms.rs), each one proved
 // bit-precisely by a loop-free Kani harness in kani/fltlemmas.
-pub mod fp { use vstd::prelude::*; use vstd::std_specs::ops::*;
-// (i) an f64 operation has no precondition (it cannot panic); (ii) its result is a function of its
-// operands (`obeys_*_spec`): `a + b` evaluated twice gives the same value.  NaN payloads are ignored.
-pub broadcast axiom fn f64_add_req(a: f64, b: f64) ensures #[trigger] a.add_req(b), <f64 as AddSpec<f64>>::obeys_add_spec();
-pub broadcast axiom fn f64_sub_req(a: f64, b: f64) ensures #[trigger] a.sub_req(b), <f64 as SubSpec<f64>>::obeys_sub_spec();
-pub broadcast axiom fn f64_mul_req(a: f64, b: f64) ensures #[trigger] a.mul_req(b), <f64 as MulSpec<f64>>::obeys_mul_spec();
-pub broadcast axiom fn f64_div_req(a: f64, b: f64) ensures #[trigger] a.div_req(b), <f64 as DivSpec<f64>>::obeys_div_spec();
-pub broadcast group f64_ops { f64_add_req, f64_sub_req, f64_mul_req, f64_div_req }
+pub mod fp { use vstd::prelude::*; use vstd::std_specs::ops::*; use vstd::std_specs::cmp::*;
+// (i) an f64 operation has no precondition (it cannot panic)
+pub broadcast axiom fn f64_add_req(a: f64, b: f64) ensures #[trigger] a.add_req(b);
+pub broadcast axiom fn f64_sub_req(a: f64, b: f64) ensures #[trigger] a.sub_req(b);
+pub broadcast axiom fn f64_mul_req(a: f64, b: f64) ensures #[trigger] a.mul_req(b);
+pub broadcast axiom fn f64_div_req(a: f64, b: f64) ensures #[trigger] a.div_req(b);
+// (ii) the result of an f64 operation or comparison is a function of its operands (`obeys_*_spec`):
+// `a + b` or `a <= b` evaluated twice gives the same value.  NaN payloads are ignored.  Ground fact.
+#[verifier::allow(broadcast_without_trigger)]
+pub broadcast axiom fn f64_deterministic() ensures
+    <f64 as AddSpec<f64>>::obeys_add_spec(), <f64 as SubSpec<f64>>::obeys_sub_spec(),
+    <f64 as MulSpec<f64>>::obeys_mul_spec(), <f64 as DivSpec<f64>>::obeys_div_spec(),
+    <f64 as PartialOrdSpec<f64>>::obeys_partial_cmp_spec(), <f64 as PartialEqSpec<f64>>::obeys_eq_spec();
+pub broadcast group f64_ops { f64_add_req, f64_sub_req, f64_mul_req, f64_div_req, f64_deterministic }
 }
-broadcast use fp::f64_ops;
 pub type Float = f64;
 global size_of usize == 8;
+/// spec-level names of the f64 library operations (uninterpreted) and of the comparison results
+pub mod fdefs { use vstd::prelude::*; use vstd::std_specs::cmp::*; use core::cmp::Ordering;
 pub uninterp spec fn s_signum(x: f64) -> f64;
 pub uninterp spec fn s_abs(x: f64) -> f64;
 pub uninterp spec fn s_powf(x: f64, y: f64) -> f64;
+pub uninterp spec fn s_powi(x: f64, n: i32) -> f64;
 pub uninterp spec fn s_sqrt(x: f64) -> f64;
 pub uninterp spec fn s_min(x: f64, y: f64) -> f64;
 pub uninterp spec fn s_max(x: f64, y: f64) -> f64;
 pub uninterp spec fn s_neg(x: f64) -> f64;
 pub uninterp spec fn s_of_usize(x: usize) -> f64;
+pub uninterp spec fn s_is_nan(x: f64) -> bool;
+pub uninterp spec fn EPSILON_s() -> f64;
+pub uninterp spec fn vac(k: int) -> bool;   // vacuity probes: `if vac(k) { assert(false) }` must FAIL in every run
+// exec comparisons on f64, in spec form (what `a <= b` etc. evaluate to, given f64_deterministic)
+pub open spec fn f_le(a: f64, b: f64) -> bool { a.partial_cmp_spec(&b) == Some(Ordering::Less) || a.partial_cmp_spec(&b) == Some(Ordering::Equal) }
+pub open spec fn f_lt(a: f64, b: f64) -> bool { a.partial_cmp_spec(&b) == Some(Ordering::Less) }
+pub open spec fn f_ge(a: f64, b: f64) -> bool { a.partial_cmp_spec(&b) == Some(Ordering::Greater) || a.partial_cmp_spec(&b) == Some(Ordering::Equal) }
+pub open spec fn f_gt(a: f64, b: f64) -> bool { a.partial_cmp_spec(&b) == Some(Ordering::Greater) }
+/// x is a finite number (not NaN, not +-inf); the only facts about it are the axioms in prelude/ieee_axioms.rs
+pub uninterp spec fn finite(x: f64) -> bool;
+}
+pub use fdefs::*;
 pub assume_specification [f64::signum] (x: f64) -> (r: f64) ensures r == s_signum(x);
 pub assume_specification [f64::abs] (x: f64) -> (r: f64) ensures r == s_abs(x);
 pub assume_specification [f64::powf] (x: f64, y: f64) -> (r: f64) ensures r == s_powf(x, y);
+pub assume_specification [f64::powi] (x: f64, n: i32) -> (r: f64) ensures r == s_powi(x, n);
 pub assume_specification [f64::sqrt] (x: f64) -> (r: f64) ensures r == s_sqrt(x);
 pub assume_specification [f64::min] (x: f64, y: f64) -> (r: f64) ensures r == s_min(x, y);
 pub assume_specification [f64::max] (x: f64, y: f64) -> (r: f64) ensures r == s_max(x, y);
+pub assume_specification [f64::is_nan] (x: f64) -> (r: bool) ensures r == s_is_nan(x);
 #[verifier::external_body] pub fn vneg(x: f64) -> (r: f64) ensures r == s_neg(x) { -x }
 #[verifier::external_body] pub fn to_f(x: usize) -> (r: f64) ensures r == s_of_usize(x) { x as f64 }
-pub uninterp spec fn vac(k: int) -> bool;   // vacuity probes: `if vac(k) { assert(false) }` must FAIL in every run
-pub uninterp spec fn s_powi(x: f64, n: i32) -> f64;
-pub assume_specification [f64::powi] (x: f64, n: i32) -> (r: f64) ensures r == s_powi(x, n);
-pub uninterp spec fn s_is_nan(x: f64) -> bool;
-pub assume_specification [f64::is_nan] (x: f64) -> (r: bool) ensures r == s_is_nan(x);
-pub uninterp spec fn EPSILON_s() -> f64;
 #[verifier::external_body] pub exec const F64_EPSILON: f64 ensures F64_EPSILON == EPSILON_s() { f64::EPSILON }
